@@ -1541,19 +1541,34 @@ class FortranWriter(LanguageWriter):
                 if (node is parent.children[1] or
                         (parent_fort_oper == "**" and fort_oper == "-")):
                     return f"({fort_oper}{content})"
+                # Case: 'a op1 (-b) op2 c [op3 d ...]' where none of
+                # '(-b) op2 c', '(-b) op2 c op3 d', ... is parenthesized
+                # (precedence does not decrease towards the sign) so
+                # that the sign would directly follow op1. Find the
+                # outermost operation that starts with this sign.
+                while (isinstance(parent.parent, BinaryOperation)
+                       and parent is parent.parent.children[0]
+                       and (precedence(self.get_operator(parent.operator))
+                            >= precedence(self.get_operator(
+                                parent.parent.operator)))):
+                    parent = parent.parent
+                parent_fort_oper = self.get_operator(parent.operator)
                 grandparent = parent.parent
-                # Case: 'a op1 (-b) op2 c'
                 # and precedence(op2) > precedence(op1)
-                # implying that '(-b) op2 c' is not parenthesized.
-                if isinstance(grandparent, BinaryOperation):
+                # implying that '(-b) op2 c ...' is not parenthesized.
+                # op1 may also be a unary sign: '-(-b) op2 c'.
+                if isinstance(grandparent, (BinaryOperation, UnaryOperation)):
                     grandparent_fort_oper = self.get_operator(
                         grandparent.operator
                     )
-                    if (parent is grandparent.children[1]
-                        and node is parent.children[0]
+                    if isinstance(grandparent, BinaryOperation):
+                        follows_oper = parent is grandparent.children[1]
+                    else:
+                        follows_oper = grandparent_fort_oper in ("-", "+")
+                    if (follows_oper
                         and (precedence(parent_fort_oper)
                              > precedence(grandparent_fort_oper))
-                            and fort_oper == "-"):
+                            and fort_oper in ("-", "+")):
                         return f"({fort_oper}{content})"
             return f"{fort_oper}{content}"
 
